@@ -190,9 +190,10 @@ pub fn vector_mut_copy(vm: &mut Vm) -> Result<VCell, Error> {
         return Err(InvalidSyntax("vector-copy!: to vector is too small".into()));
     }
 
-    for i in start..end {
-        let val = from_vector.get(i).unwrap();
-        to_vector.put(i - start + at, val);
+    // read the whole source range first: source and target may be the same vector
+    let vals: Vec<VCell> = (start..end).map(|i| from_vector.get(i).unwrap()).collect();
+    for (k, val) in vals.into_iter().enumerate() {
+        to_vector.put(at + k, val);
     }
 
     Ok(VCell::Void)
